@@ -211,18 +211,35 @@ func c11run(c *fw.Ctx, idx int) {
 	// generated programs (the C01/C07/C13 generator with everything switched on), each on a Set of its own that all
 	// goroutines share and that has loaded nothing yet; expected = what the same program yields alone on another Set
 	const nprog = 5
-	var progs []*prog.Program
+	type c11entry struct {
+		p    *prog.Program
+		want prog.Observed
+	}
+	var progEntries [][]c11entry // per program: the main template and up to two other files executed as entry points
 	var progSets []*jet.Set
-	var progWant []prog.Observed
-	for len(progs) < nprog {
+	for len(progEntries) < nprog {
 		cfg := prog.Cfg{Items: 3, MaxDepth: 3, Ifs: true, Ranges: true, Vars: true, Blocks: true, MultiFile: true, Includes: true, Try: true, Fails: r.Intn(2) == 0, Ctx: true,
 			ExecNoReturn: true, IncludeIfExists: true, SharedNames: true, IncludeLoop: true, IssetSwallow: true, Writers: []string{"raw", "unsafe", "safeHtml"}}
 		p, _ := prog.Gen(r, cfg)
 		if m := prog.Eval(p); m.Unspecified != "" {
 			continue
 		}
-		progs = append(progs, p)
-		progWant = append(progWant, p.Run(prog.RunOpts{}))
+		var es []c11entry
+		mains := []string{p.Main}
+		for k := 0; k < 2 && len(p.Files) > 1; k++ {
+			if f := p.Files[r.Intn(len(p.Files))].Path; f != p.Main {
+				mains = append(mains, f)
+			}
+		}
+		for _, mn := range mains {
+			q := *p
+			q.Main = mn
+			if m := prog.Eval(&q); m.Unspecified != "" {
+				continue
+			}
+			es = append(es, c11entry{&q, q.Run(prog.RunOpts{})})
+		}
+		progEntries = append(progEntries, es)
 		progSets = append(progSets, p.NewSet(false))
 	}
 
@@ -366,10 +383,11 @@ func c11run(c *fw.Ctx, idx int) {
 				case k >= 20: // a generated program on its shared Set
 					pi := rr.Intn(nprog)
 					local["generated program GetTemplate+Execute"]++
-					o := progs[pi].Run(prog.RunOpts{Set: progSets[pi]})
-					if got, exp := c11obs(o), c11obs(progWant[pi]); got != exp {
+					e := progEntries[pi][rr.Intn(len(progEntries[pi]))]
+					o := e.p.Run(prog.RunOpts{Set: progSets[pi]})
+					if got, exp := c11obs(o), c11obs(e.want); got != exp {
 						mu.Lock()
-						mismatches = append(mismatches, fmt.Sprintf("generated program %d: concurrently %.600s, alone %.600s; files %v", pi, got, exp, progs[pi].Sources(false)))
+						mismatches = append(mismatches, fmt.Sprintf("generated program %d entry %s: concurrently %.600s, alone on a Set of its own %.600s; files %v", pi, e.p.Main, got, exp, e.p.Sources(false)))
 						mu.Unlock()
 					}
 				default: // dev-mode GetTemplate + Execute = read
@@ -441,7 +459,7 @@ func init() {
 	fw.Register(&fw.Property{
 		ID:        "C11",
 		Technique: "Go race detector over a concurrent workload + serial-result comparison of every concurrent Execute + porcupine linearizability check of recorded global/dev-mode-template register histories",
-		Rule: "each case is one round: 16 (thorough 32) goroutines issue 120 (400) random operations on one Set: GetTemplate+Execute of 9 stable templates (extends/import/blocks, ranges of every ranger kind incl. nested, field access on struct types minted per execution or shared by ~16 consecutive executions of different goroutines (first met concurrently), include, try, functions, escaping) and of 5 generated template sets per round (the program generator with blocks, includes, try, failures, SafeWriters, exec switched on; each on a cold Set of its own shared by all goroutines), first-time loads of 6 templates requested by several goroutines at once, Parse+Execute, AddGlobal/LookupGlobal/executions rendering a global, " +
+		Rule: "each case is one round: 16 (thorough 32) goroutines issue 120 (400) random operations on one Set: GetTemplate+Execute of 9 stable templates (extends/import/blocks, ranges of every ranger kind incl. nested, field access on struct types minted per execution or shared by ~16 consecutive executions of different goroutines (first met concurrently), include, try, functions, escaping) and of 5 generated template sets per round, each through its main template and up to two other entry points (the program generator with blocks, includes, try, failures, SafeWriters, exec switched on; each on a cold Set of its own shared by all goroutines), first-time loads of 6 templates requested by several goroutines at once, Parse+Execute, AddGlobal/LookupGlobal/executions rendering a global, " +
 			"Parse+Execute on a Set with custom action and comment delimiters, and on a development-mode Set InMemLoader.Set/Delete versus GetTemplate+Execute; the recording loader/cache yield or sleep 0-80us inside every call; oracles: zero race-detector reports and no fatal error (worker death), every concurrent Execute on unedited inputs equals the output computed alone beforehand, " +
 			"the timed history of writes (AddGlobal, loader Set with unique tokens) and reads (LookupGlobal, rendering executions) is linearizable as one register per key (porcupine, 60 s timeout = inconclusive); non-trivial/distinct = rounds (each with its own interleavings; overlapping operation pairs and first-time loads are reported)",
 		Assumptions: []string{"interleavings are those the scheduler produced in this run (reported as overlapping pairs), not all interleavings", "non-development first loads are not modelled as registers (two concurrent first loads may cache either version)"},
